@@ -188,7 +188,9 @@ func zzH20_scalar() {
 		// string <-> bytes: accepted by the current code although not "of the field's
 		// type"; what must hold in any case is that the stored value is well-typed.
 		if err == nil {
-			zzAssertExcept(zzWellTyped(pv, class), "C20.scalar.cross_well_typed", shape == zzSBytes && class == zzCStr)
+			// (Bytes into a string field used to be stored as []byte and panicked the host on
+			// use: fixed in /repo, see known_findings.json "fixed")
+			zzAssert(zzWellTyped(pv, class), "C20.scalar.cross_well_typed")
 		}
 		zzReach("end")
 		return
